@@ -963,6 +963,21 @@ void flattenUnitsImports(const ModelPtr &flatModel, const UnitsPtr &units, size_
     auto importSource = units->importSource();
     auto importingModelCopy = importSource->model()->clone();
     auto importedUnits = importingModelCopy->units(units->importReference());
+    if (importedUnits->isBaseUnit() && !importedUnits->isImport() && (importedUnits->name() != units->name())) {
+        // A base unit is what its name says: imported under another name it must not become a second, different base unit.
+        // The importing name becomes an alias of the base unit, which keeps its own name.
+        auto baseUnits = flatModel->units(importedUnits->name());
+        if ((baseUnits == nullptr) || baseUnits->isBaseUnit()) {
+            if (baseUnits == nullptr) {
+                flatModel->addUnits(importedUnits);
+            }
+            auto aliasUnits = Units::create(units->name());
+            aliasUnits->setId(units->id());
+            aliasUnits->addUnit(importedUnits->name());
+            flatModel->replaceUnits(index, aliasUnits);
+            return;
+        }
+    }
     importedUnits->setName(units->name());
     flatModel->replaceUnits(index, importedUnits);
     retrieveUnitsDependencies(flatModel, importingModelCopy, importedUnits, component);
